@@ -157,7 +157,10 @@ fn run_item(tier: Tier, it: &Item, out: &mut UnitOut, check_status: bool, prop: 
     out.nontrivial_text(&it.text);
     out.sample(json!({"program": it.name, "default_calls": base.calls.len(), "deviation_bound": bound, "executions": count}));
     // uniform budgets
-    let ks: Vec<u32> = (1..=16).chain([64, 1000, u32::MAX]).collect();
+    let mut ks: Vec<u32> = (1..=16).chain([64, 1000]).collect();
+    if p.single_thread {
+        ks.push(u32::MAX);
+    }
     for k in ks {
         let x = embed::execute_uniform(&p, k, step_cap);
         out.evaluations += 1;
@@ -208,7 +211,7 @@ impl Prop for C10 {
         format!(
             "{} programs (hand-modelled corpus incl. host calls, readline, runtime errors with locations, final values, Kahn-style task programs; the collector and channel families): \
              ALL embedder executions with <= 2 deviations from the default (budget 1, immediate host service) when the default run has <= {} calls, else <= 1; deviations = one call with budget in {:?} \
-             or leaving a pending host call unserviced for 1..3 further calls; plus uniform budgets 1..16, 64, 1000, MAX; oracle: output, emits, final value, error kind AND traceback identical to the default execution \
+             or leaving a pending host call unserviced for 1..3 further calls; plus uniform budgets 1..16, 64, 1000 (and MAX for task-free programs); oracle: output, emits, final value, error kind AND traceback identical to the default execution \
              (and the default equals the hand model where one exists); states = executions, transitions = run_n_steps calls",
             items().len(),
             tier.pick(30, 400),
